@@ -105,10 +105,16 @@ TDump ==
                ELSE ~Ev.keys[k][1]
         /\ DOMAIN Ev.sorted = DOMAIN S.sx
         /\ \A n \in DOMAIN S.sx :
-             LET seq == Ev.sorted[n] IN
-             /\ Len(seq) = Cardinality({it \in S.sx[n].items : it[2] \in DumpRows(S, mode)})
-             /\ {<<seq[i][2], seq[i][1]>> : i \in DOMAIN seq} = {it \in S.sx[n].items : it[2] \in DumpRows(S, mode)}
-             /\ \A i \in 1..(Len(seq) - 1) : SeqLeq(seq[i][2], seq[i + 1][2])
+             \* Ascend visits exactly the rows that have an entry, ordered by the entries' values; the value read
+             \* at each stop is the column's current value (entry value = column value is SortCoherent)
+             LET seq == Ev.sorted[n]
+                 items == {it \in S.sx[n].items : it[2] \in DumpRows(S, mode)}
+                 keyOf(o) == (CHOOSE it \in items : it[2] = o)[1]
+             IN
+             /\ Len(seq) = Cardinality(items)
+             /\ {seq[i][1] : i \in DOMAIN seq} = {it[2] : it \in items}
+             /\ \A i \in 1..(Len(seq) - 1) : SeqLeq(keyOf(seq[i][1]), keyOf(seq[i + 1][1]))
+             /\ \A i \in DOMAIN seq : seq[i][2] = ValueAt(S, S.sx[n].col, seq[i][1])[2]
 
 \* ---- diagnostics (development aid, used by bin/explain): what differs between the event and the model state
 DumpDiag ==
